@@ -110,6 +110,23 @@ type frame struct {
 	panicking        bool
 	panic            interface{}
 	phitemps         []value // temporaries for parallel phi assignment
+	cur              ssa.Instruction
+}
+
+// lastPanicStack is the target call stack at the point where the innermost panic was first seen.
+var lastPanicStack string
+
+func targetStack(fr *frame) string {
+	var sb strings.Builder
+	for f, n := fr, 0; f != nil && n < 12; f, n = f.caller, n+1 {
+		pos := ""
+		if f.cur != nil && f.cur.Pos().IsValid() {
+			p := f.i.prog.Fset.Position(f.cur.Pos())
+			pos = fmt.Sprintf(" (%s:%d)", p.Filename[strings.LastIndex(p.Filename, "/")+1:], p.Line)
+		}
+		fmt.Fprintf(&sb, " <- %s%s", f.fn.String(), pos)
+	}
+	return sb.String()
 }
 
 func (fr *frame) get(key ssa.Value) value {
@@ -593,6 +610,13 @@ func runFrame(fr *frame) {
 		}
 		if re, isRT := r.(runtime.Error); isRT {
 			r = classifyHostPanic(re)
+			if _, isEng := r.(enginePanic); isEng {
+				lastPanicStack = targetStack(fr)
+				panic(r)
+			}
+		}
+		if lastPanicStack == "" {
+			lastPanicStack = targetStack(fr)
 		}
 		fr.panicking = true
 		fr.panic = r
@@ -623,6 +647,7 @@ func runFrame(fr *frame) {
 					panic(budgetExceeded{fmt.Sprintf("more than %d interpreter steps on one path", p.MaxSteps)})
 				}
 			}
+			fr.cur = instr
 			if visitInstr(fr, instr) == kReturn {
 				return
 			}
